@@ -178,6 +178,73 @@ let run_case op t =
       let pos = next_z t in
       let f c = join [ zs c; zs pos ] in
       (res_s f (index_m (view_of h) pos), opt_s f (index_s h pos))
+  (* ---- char_traits members as operations (ModelTraits.v / SpecTraits.v) ---- *)
+  | "tr" -> (
+      let buf_s d l = join [ zs (z_of_int d); zlist_s l ] in
+      match variant with
+      | "move" | "copy" ->
+          let buf = next_zlist t in
+          let d = next_int t in
+          let s = next_int t in
+          let cnt = next_int t in
+          if d + cnt > List.length buf || s + cnt > List.length buf then ("bad-case", "na")
+          else
+            let dn = nat_of_int d and sn = nat_of_int s and cn = nat_of_int cnt in
+            let m = if variant = "move" then tr_move_m buf dn sn cn else tr_copy_m buf dn sn cn in
+            (* std copy: dest not in [source, source + count); the forward loop is also right for dest = source *)
+            let in_domain = variant = "move" || not (s < d && d < s + cnt) in
+            (res_s (buf_s d) m, if in_domain then "ok " ^ buf_s d (move_s buf dn sn cn) else "na")
+      | "fill" ->
+          let buf = next_zlist t in
+          let d = next_int t in
+          let cnt = next_int t in
+          let c = next_z t in
+          if d + cnt > List.length buf then ("bad-case", "na")
+          else
+            ( res_s (buf_s d) (tr_fill_m buf (nat_of_int d) (nat_of_int cnt) c),
+              "ok " ^ buf_s d (fill_s buf (nat_of_int d) (nat_of_int cnt) c) )
+      | "cmp" ->
+          let a = next_zlist t in
+          let b = next_zlist t in
+          let cnt = next_int t in
+          if cnt > List.length a || cnt > List.length b then ("bad-case", "na")
+          else
+            ( res_s zs (traits_compare ck (view_of a) (view_of b) (z_of_int cnt)),
+              "ok " ^ zs (tr_compare_s ct a b (z_of_int cnt)) )
+      | "find" ->
+          let sl = next_zlist t in
+          let cnt = next_int t in
+          let c = next_z t in
+          let o = function Some i -> zs i | None -> "-1" in
+          if cnt > List.length sl then ("bad-case", "na")
+          else (res_s o (traits_find (view_of sl) (z_of_int cnt) c), "ok " ^ o (tr_find_s sl (z_of_int cnt) c))
+      | "len" ->
+          let sl = next_zlist t in
+          (res_s zs (strlen_m (carr_of sl)), "ok " ^ zs (tr_length_s (sl @ [ Z0 ])))
+      | "chr" ->
+          let a = next_z t in
+          let b = next_z t in
+          ( join [ "ok"; bs (tr_eq_m a b); bs (tr_lt_m ck a b); zs (tr_assign_m a b) ],
+            join [ "ok"; bs (big_of_z a = big_of_z b); bs (char_lt ct a b); zs b ] )
+      | "toint" ->
+          let c = next_z t in
+          let e = to_int_type_m ck c in
+          let es = to_int_type_s ct c in
+          ( join [ "ok"; zs e; bs (eq_int_type_m ck e (eof_m ck)); zs (eof_m ck); zs (to_char_type_m ck e) ],
+            (* [char.traits.require]: to_char_type(to_int_type(c)) = c *)
+            join [ "ok"; zs es; bs (big_of_z es = big_of_z (eof_s ct)); zs (eof_s ct); zs c ] )
+      | "tochar" ->
+          let i = next_z t in
+          (join [ "ok"; zs (to_char_type_m ck i) ], join [ "ok"; zs (to_char_type_s ct i) ])
+      | "eqint" ->
+          let i = next_z t in
+          let j = next_z t in
+          let ne = not_eof_m ck i in
+          let is_eof = big_of_z i = big_of_z (eof_s ct) in
+          ( join [ "ok"; bs (eq_int_type_m ck i j); zs ne; bs (eq_int_type_m ck ne (eof_m ck)) ],
+            (* not_eof(e) = e if e is not eof(), else SOME value that is not eof(): etl and libstdc++ both use 0 *)
+            join [ "ok"; bs (big_of_z i = big_of_z j); (if is_eof then "0" else zs i); "0" ] )
+      | _ -> raise Not_found)
   | "ctor" when variant = "it" ->
       (* basic_string_view(first, last) views exactly [first, last) *)
       let h = next_zlist t in
